@@ -27,7 +27,7 @@ RULE = ("one case = (shape = class shared by the threads, 2-3 thread operations 
         "AND with the Lean model's prediction for the observed event order; stream E: same schedules on nested "
         "collections, AnyOf/OneOf/AllOf/NotField, ImmutableSet, nested structures, scalars (oracle only); stream B: "
         "construct/deserialize/setattr/serialize mixes, pre-emption at ANY line of ANY typedpy file, sampled schedules "
-        "(oracle only). evaluations counts cases; each case runs 25-1500 schedules (histogram schedules-per-case). "
+        "(oracle only); twin streams (A/E/B): the same declaration spelling (Optional[..], AnyOf[.., None], X | None, Union, list[Optional], Array/Set/Map/Tuple, ...) written out freshly for two differently named fields and a second class, every thread on a DIFFERENT declaration, explicit None / values the earlier options reject / valid values, directed None||None and None||rejected cases - must be sequential. evaluations counts cases; each case runs 25-1500 schedules (histogram schedules-per-case). "
         "non-trivial = >= 2 threads on a non-scalar shape, distinct by sha256 of the case")
 ASSUMPTIONS = [
     "PARTIAL: pre-emption only at statement/line boundaries inside typedpy files, driven by sys.settrace with one "
